@@ -162,7 +162,7 @@ func computeDevirt(p *Prog) {
 				fn, _ = x.Fn.(*ssa.Function)
 			}
 		}
-		if fn == nil || fn.Blocks == nil {
+		if fn == nil {
 			bad[key] = true
 			return
 		}
